@@ -170,7 +170,7 @@ def phase_signature(fr):
 # classification
 # ======================================================================================
 
-FAULTY = ("signal", "fault", "bug", "compbug", "assert")
+FAULTY = ("signal", "fault", "bug", "compbug", "assert", "storage-fault")
 
 def classify(rc, out, invalid=False):
     """-> class name or None"""
@@ -186,8 +186,10 @@ def classify(rc, out, invalid=False):
         return "compbug"
     if re.search(rb"(?:^|\(Error\) )Program fault \(", out, re.M):
         return "fault"
+    if re.search(rb"\(Fatal Error\) Storage allocation error \(out of memory\)", out):
+        return "storage-error"          # with `timeout`: the class `runaway`
     if re.search(rb"\(Fatal Error\) Storage allocation error", out):
-        return "storage-error"
+        return "storage-fault"          # bad free / use of non-allocated space: the store is corrupted
     if isinstance(rc, int) and rc < 0:
         return "signal"
     nerr = len(ERR_RE.findall(out))
@@ -850,7 +852,7 @@ def correspondence(ctx, runner, pool):
 def sig_for(runner, case, cls, out, data=None):
     data = case.data if data is None else data
     if cls in FAULTY:
-        fr, signame = runner.frames(data, case.lib, case.extra, case.files, "fatal" if cls == "compbug" else "fault")
+        fr, signame = runner.frames(data, case.lib, case.extra, case.files, "fatal" if cls in ("compbug", "storage-fault") else "fault")
         fs = frame_signature(fr) if fr else "no-repro-under-gdb"
         det = detail_line(cls, out)
         return "scanfuzz|%s|%s%s" % (cls, fs, ("|" + det) if det else "")
@@ -892,8 +894,8 @@ def run_part(ctx, build):
         c.cls = classify(c.rc, c.out, bool(c.invalid))
         return c
     list(pool.map(go, cases))
-    # a timeout under 16-fold parallel load proves nothing: run those again, two at a time, with three
-    # times the limit; only the ones that still do not finish are hangs
+    # a timeout under 16-fold parallel load proves nothing: run those again (each distinct input once, four at a
+    # time) with at least three times the limit; only the ones that still do not finish are hangs
     slow = [c for c in cases if c.cls == "timeout"]
     try:
         load = os.getloadavg()[0] / common.NCPU
@@ -901,13 +903,17 @@ def run_part(ctx, build):
         load = 1.0
     relimit = int(min(120, TIMEOUT * max(3.0, 1.5 * load)))      # a busy machine gets proportionally more time
     def again(c):
-        rc, out, wall = runner.compile(c.data, c.lib, c.extra, c.files, limit=relimit)
-        if rc != "TIMEOUT":
-            c.rc, c.out, c.wall = rc, out, wall
-            c.cls = classify(rc, out, bool(c.invalid))
-        return c
-    with cf.ThreadPoolExecutor(max_workers=2) as p2:
-        list(p2.map(again, slow))
+        return runner.compile(c.data, c.lib, c.extra, c.files, limit=relimit)
+    distinct = {}
+    for c in slow:
+        distinct.setdefault((c.data, c.lib, c.extra, tuple(sorted((c.files or {}).items()))), []).append(c)
+    reps = [cs[0] for cs in distinct.values()]
+    with cf.ThreadPoolExecutor(max_workers=4) as p2:
+        for cs, (rc, out, wall) in zip(distinct.values(), p2.map(again, reps)):
+            if rc != "TIMEOUT":
+                for c in cs:
+                    c.rc, c.out, c.wall = rc, out, wall
+                    c.cls = classify(rc, out, bool(c.invalid))
     n_slow_ok = sum(1 for c in slow if c.cls != "timeout")
     t_fuzz = time.time()
     by_cls = {}
@@ -930,7 +936,12 @@ def run_part(ctx, build):
         per[key] = per.get(key, 0) + 1
         if len(chosen) < cap or per[key] <= 3:
             chosen.append(c)
-    sigs = list(pool.map(lambda c: sig_for(runner, c, c.cls, c.out), chosen))
+    keyof = lambda c: (c.cls, c.data, c.lib, c.extra, tuple(sorted((c.files or {}).items())), c.invalid)
+    uniq = {}
+    for c in chosen:
+        uniq.setdefault(keyof(c), c)
+    usig = dict(zip(uniq.keys(), pool.map(lambda c: sig_for(runner, c, c.cls, c.out), uniq.values())))
+    sigs = [usig[keyof(c)] for c in chosen]
     t_sig = time.time()
     groups = {}
     for c, s in zip(chosen, sigs):
